@@ -193,11 +193,24 @@ class Gen:
         from lsst.daf.butler import StorageClassFactory
         return StorageClassFactory().getStorageClass(parent).allComponents()[comp].name
 
-    def ref(self):
+    def fixed_coord(self, which):
+        """deterministic regression instances (corpus): visit+detector data ID with None records"""
+        from lsst.daf.butler import DataCoordinate
+        g = self.u.conform(["visit", "detector"])
+        vals = {"instrument": "Cam", "visit": 5, "detector": 1, "band": "g", "physical_filter": "g2", "day_obs": 20200101}
+        full = DataCoordinate.from_full_values(g, tuple(vals[k] for k in g.data_coordinate_keys))
+        if which.startswith("all_none"):
+            recs = {k: None for k in g.elements}
+        else:
+            recs = self.records_for(g, vals, 0.0)
+            recs["visit_detector_region"] = None
+        return full.expanded(recs), "expanded_null"
+
+    def ref(self, fixed=None):
         from lsst.daf.butler import DatasetRef
-        g = self.group()
+        g = self.group() if fixed is None else self.u.conform(["visit", "detector"])
         dt = self.dataset_type(g)
-        c, state = self.coord(g)
+        c, state = self.coord(g) if fixed is None else self.fixed_coord(fixed)
         run = self.r.choice(["run1", "u/someone/run", "r", "a b"])
         return DatasetRef(dt, c, run=run, id=uuid.UUID(int=self.r.getrandbits(128))), state
 
@@ -370,12 +383,16 @@ def serial_cases(payload):
     from lsst.daf.butler import DataCoordinate, DatasetRef, DatasetType, DimensionGroup, DimensionRecord, Timespan
     import yaml
 
-    gen = Gen(payload["seed"])
+    gen = Gen(payload.get("seed", 0))
     u = gen.u
     out = []
-    for i in range(payload["n"]):
-        for kind in payload["kinds"]:
+    plan = [(i, kind, None) for i in range(payload.get("n", 0)) for kind in payload.get("kinds", [])]
+    plan += [(i, "ref" if f.endswith("_ref") else "coord", f) for i, f in enumerate(payload.get("fixed", []))]
+    for i, kind, fixed in plan:
+        if True:
             case = {"kind": kind, "idx": i}
+            if fixed:
+                case["fixed"] = fixed
             try:
                 if kind == "ts":
                     t = gen.timespan()
@@ -428,8 +445,8 @@ def serial_cases(payload):
                     nulls = sum(1 for n in rec.__slots__ if getattr(rec, n) is None)
                     case["feat"] = f"{el.name}:{'nulls' if nulls else 'nonull'}"
                 elif kind == "coord":
-                    c, state = gen.coord()
-                    minimal = gen.r.random() < 0.3
+                    c, state = gen.coord() if fixed is None else gen.fixed_coord(fixed)
+                    minimal = gen.r.random() < 0.3 and fixed is None
                     case["minimal"] = minimal
                     case["inst"] = abs_coord(c)
                     case["ctx"] = abs_ctx(gen, [c.dimensions])
@@ -457,8 +474,8 @@ def serial_cases(payload):
                     case["forms"] = forms
                     case["feat"] = f"{'comp' if t.isComponent() else 'plain'}:{'cal' if t.isCalibration() else 'nocal'}:{'min' if minimal else 'full'}"
                 elif kind == "ref":
-                    r, state = gen.ref()
-                    minimal = gen.r.random() < 0.25
+                    r, state = gen.ref(fixed)
+                    minimal = gen.r.random() < 0.25 and fixed is None
                     parent = r.makeCompositeRef() if r.isComponent() else r
                     reg = FakeRegistry(u, [r.datasetType, parent.datasetType], [parent])
                     case["minimal"] = minimal
